@@ -45,6 +45,8 @@ struct Case {
     use_prod_key: Option<bool>,
     /// compile through a two-master designspace (skipExportGlyphs then lives in the designspace lib)
     designspace: bool,
+    /// write a Glyphs 3 source instead of a UFO (glyphOrder custom parameter, export = 0)
+    glyphs_fmt: bool,
     /// second master listed first in <sources>
     default_last: bool,
     /// a public.skipExportGlyphs in the UFO lib that a designspace build must ignore
@@ -66,7 +68,7 @@ const POOLS: &[&[&str]] = &[
 const CP_POOL: &[u32] = &[0x20, 0x41, 0x42, 0x43, 0x61, 0x62, 0x63, 0xC1, 0xE9, 0x301, 0x2D, 0xFFFD, 0x10000, 0x1F600, 0xE000, 0xF8FF];
 
 fn gen_case(rng: &mut Rng, id: usize) -> Case {
-    let kind_ix = rng.below(8);
+    let kind_ix = rng.below(9);
     let kind = match kind_ix {
         0 => "plain",
         1 => "order",
@@ -75,6 +77,7 @@ fn gen_case(rng: &mut Rng, id: usize) -> Case {
         4 => "cmap",
         5 => "rename",
         6 => "designspace",
+        7 => "glyphsfmt",
         _ => "any",
     };
     let pool = match kind {
@@ -128,7 +131,10 @@ fn gen_case(rng: &mut Rng, id: usize) -> Case {
         if !comps.is_empty() && rng.chance(1, 12) {
             comps.push("missing.glyph".to_string()); // dangling reference: pruned with a warning
         }
-        let export = !(rng.below(100) < nonexport_rate);
+        let mut export = !(rng.below(100) < nonexport_rate);
+        if name == NOTDEF && !export && !rng.chance(1, 4) {
+            export = true; // a non-export .notdef is kept rare (known failure class)
+        }
         glyphs.push(G { name: name.clone(), export, cps: vec![], contours, comps, advance: 0 });
     }
     // "nonexport": make sure a nested chain export -> nonexport -> nonexport -> export exists
@@ -261,7 +267,8 @@ fn gen_case(rng: &mut Rng, id: usize) -> Case {
         1 => Some(true),
         _ => None,
     };
-    let designspace = kind == "designspace" || rng.chance(1, 8);
+    let glyphs_fmt = kind == "glyphsfmt";
+    let designspace = !glyphs_fmt && (kind == "designspace" || rng.chance(1, 8));
     let decoy_skip = if designspace && rng.chance(1, 2) { vec![rng.pick(&glyphs).name.clone()] } else { vec![] };
     let extra_in_other_master = if designspace && rng.chance(1, 2) { Some("only.in.bold".to_string()) } else { None };
     let mut kerning = Vec::new();
@@ -274,7 +281,13 @@ fn gen_case(rng: &mut Rng, id: usize) -> Case {
             }
         }
     }
-    Case { id, kind, declared, glyphs, fl, rename, use_prod_key, designspace, default_last: rng.chance(1, 2), decoy_skip, extra_in_other_master, kerning }
+    let (fl, rename, use_prod_key, kerning) = if glyphs_fmt {
+        // production names come from GlyphData for .glyphs sources: not modelled, switched off
+        (Fl { production_names: false, ..fl }, None, None, Vec::new())
+    } else {
+        (fl, rename, use_prod_key, kerning)
+    };
+    Case { id, kind, declared, glyphs, fl, rename, use_prod_key, designspace, glyphs_fmt, default_last: rng.chance(1, 2), decoy_skip, extra_in_other_master, kerning }
 }
 
 // ---------------------------------------------------------------- writing the source
@@ -515,7 +528,9 @@ fn spec_of(c: &Case) -> Spec {
         }
     }
     let mut rest: Vec<String> = c.glyphs.iter().filter(|g| g.export && !placed.contains(&g.name)).map(|g| g.name.clone()).collect();
-    rest.sort();
+    if !c.glyphs_fmt {
+        rest.sort(); // UFO: ascending; .glyphs: file order
+    }
     order.extend(rest);
     let exported: Vec<String> = c.glyphs.iter().filter(|g| g.export && g.name != NOTDEF).map(|g| g.name.clone()).collect();
     let mut cm: BTreeMap<u32, String> = BTreeMap::new();
@@ -553,7 +568,7 @@ fn case_json(c: &Case) -> serde_json::Value {
         "glyphs": c.glyphs.iter().map(|g| json!({"name": g.name, "export": g.export, "unicodes": g.cps, "contours": g.contours, "components": g.comps, "advance": g.advance})).collect::<Vec<_>>(),
         "flags": {"prefer_simple_glyphs": c.fl.prefer_simple, "flatten_components": c.fl.flatten, "decompose_components": c.fl.decompose, "production_names": c.fl.production_names},
         "postscriptNames": c.rename, "useProductionNames": c.use_prod_key,
-        "designspace": c.designspace, "default_master_last": c.default_last, "ufo_lib_skipExport_decoy": c.decoy_skip,
+        "format": if c.glyphs_fmt { "glyphs3" } else { "ufo" }, "designspace": c.designspace, "default_master_last": c.default_last, "ufo_lib_skipExport_decoy": c.decoy_skip,
         "extra_glyph_in_bold": c.extra_in_other_master, "kerning": c.kerning,
     })
 }
@@ -619,7 +634,9 @@ fn check_property(c: &Case, spec: &Spec, d: &Decoded, names: &[String], renamed_
     for (gid, nm) in names.iter().enumerate() {
         if let Some(g) = by_name.get(nm.as_str()) {
             let synthesized_notdef = nm == NOTDEF && !g.export;
-            if g.export && d.advances[gid] != g.advance || synthesized_notdef && d.advances[gid] != 500 {
+            // (.glyphs sources: nonspacing marks get zero width, by design)
+            let zeroed_mark = c.glyphs_fmt && d.advances[gid] == 0;
+            if !zeroed_mark && (g.export && d.advances[gid] != g.advance || synthesized_notdef && d.advances[gid] != 500) {
                 out.violation("post-name-on-wrong-glyph", format!("glyph {gid} is named {:?} but has advance {} (source {})", nm, d.advances[gid], g.advance), json!({"case": cj, "order": names}));
             }
         }
@@ -664,6 +681,20 @@ fn check_property(c: &Case, spec: &Spec, d: &Decoded, names: &[String], renamed_
             if *a as usize >= n || (*b != u32::MAX && *b as usize >= n) {
                 out.violation("gpos-glyph-out-of-range", format!("GPOS pair ({a},{b}) with {n} glyphs"), json!({"case": cj}));
             }
+        }
+    }
+    // kerning between two exported glyphs survives, kerning that names a non-export glyph is dropped
+    if !c.kerning.is_empty() && !c.designspace {
+        let gid_of: HashMap<&str, u32> = names.iter().enumerate().map(|(i, s)| (s.as_str(), i as u32)).collect();
+        let exp = |n: &str| by_name.get(n).map(|g| g.export).unwrap_or(false);
+        let mut want: Vec<(u32, u32)> = c.kerning.iter().filter(|(a, b, _)| exp(a) && exp(b)).filter_map(|(a, b, _)| Some((*gid_of.get(a.as_str())?, *gid_of.get(b.as_str())?))).collect();
+        want.sort();
+        want.dedup();
+        let got: Vec<(u32, u32)> = d.gpos_pairs.clone().unwrap_or_default();
+        if got.iter().all(|(_, b)| *b != u32::MAX) && got != want {
+            let extra: Vec<&(u32, u32)> = got.iter().filter(|x| !want.contains(x)).collect();
+            let key = if extra.is_empty() { "kerning-between-exported-glyphs-lost" } else { "kerning-for-undeclared-pair" };
+            out.violation(key, format!("GPOS pairs {:?}, the source's pairs between exported glyphs {:?}", got, want), json!({"case": cj, "order": names}));
         }
     }
     let _ = spec.exported.len();
@@ -729,8 +760,63 @@ fn coq_case(c: &Case, obs: &Obs, glyphs_fmt: bool) -> String {
 }
 
 // ---------------------------------------------------------------- running one case
+fn gstr(s: &str) -> String {
+    if !s.is_empty() && s.chars().all(|c| c.is_ascii_alphanumeric() || c == '_') && !s.chars().next().unwrap().is_ascii_digit() {
+        s.to_string()
+    } else {
+        format!("\"{}\"", s.replace('\\', "\\\\").replace('"', "\\\""))
+    }
+}
+
+/// A single-master Glyphs 3 source for the case.
+fn glyphs_source(c: &Case) -> String {
+    let mut s = String::from("{\n.formatVersion = 3;\n");
+    if let Some(d) = &c.declared {
+        s.push_str("customParameters = (\n{\nname = glyphOrder;\nvalue = (\n");
+        s.push_str(&d.iter().map(|x| gstr(x)).collect::<Vec<_>>().join(",\n"));
+        s.push_str("\n);\n}\n);\n");
+    }
+    s.push_str("familyName = C06;\nfontMaster = (\n{\nid = m01;\nname = Regular;\n}\n);\nglyphs = (\n");
+    let mut first = true;
+    for g in &c.glyphs {
+        if !first {
+            s.push_str(",\n");
+        }
+        first = false;
+        s.push_str("{\n");
+        if !g.export {
+            s.push_str("export = 0;\n");
+        }
+        s.push_str(&format!("glyphname = {};\nlayers = (\n{{\nlayerId = m01;\n", gstr(&g.name)));
+        let mut shapes: Vec<String> = Vec::new();
+        if g.contours {
+            shapes.push(format!("{{\nclosed = 1;\nnodes = (\n(10,0,l),\n(50,0,l),\n(50,{h},l),\n(10,{h},l)\n);\n}}", h = 100 + g.advance));
+        }
+        for (i, b) in g.comps.iter().enumerate() {
+            shapes.push(format!("{{\npos = ({},{});\nref = {};\n}}", 13 * (i + 1) + g.advance as usize, (g.advance as usize - 90) * 3, gstr(b)));
+        }
+        if !shapes.is_empty() {
+            s.push_str(&format!("shapes = (\n{}\n);\n", shapes.join(",\n")));
+        }
+        s.push_str(&format!("width = {};\n}}\n);\n", g.advance));
+        match g.cps.len() {
+            0 => {}
+            1 => s.push_str(&format!("unicode = {};\n", g.cps[0])),
+            _ => s.push_str(&format!("unicode = ({});\n", g.cps.iter().map(|c| c.to_string()).collect::<Vec<_>>().join(","))),
+        }
+        s.push_str("}");
+    }
+    s.push_str("\n);\nunitsPerEm = 1000;\n}\n");
+    s
+}
+
 fn compile(c: &Case, fl: &Fl, tag: &str) -> Outcome {
     let dir = scratch_dir(&format!("c06-{}-{}", c.id, tag));
+    if c.glyphs_fmt {
+        let path = dir.path().join("C06.glyphs");
+        std::fs::write(&path, glyphs_source(c)).unwrap();
+        return compile_path(&path, Some(flags_of(fl)), None);
+    }
     let design = build_design(c);
     let path = if c.designspace { design.write_designspace(dir.path()) } else { design.write(dir.path()) };
     compile_path(&path, Some(flags_of(fl)), None)
@@ -764,9 +850,10 @@ fn run_case(c: &Case) -> Vec<serde_json::Value> {
             let nonexport: Vec<&str> = c.glyphs.iter().filter(|g| !g.export).map(|g| g.name.as_str()).collect();
             let reused = nonexport.iter().find(|n| msg.contains(&format!("Fragment({n})) is not available")));
             if let Some(nm) = reused {
+                let key = if *nm == NOTDEF { "nonexport-notdef-build-panics" } else { "derived-glyph-name-equals-nonexport-glyph-build-panics" };
                 out.violation(
-                    "compiler-added-glyph-reuses-nonexport-name",
-                    format!("the source marks {nm:?} as not exported; the compiler adds a glyph of that name itself and the build dies: {msg}"),
+                    key,
+                    format!("the source marks {nm:?} as not exported; the compiler adds a glyph of that name itself and the build dies with \"A task panicked: 'Be(GlyfFragment({nm})) is not available'\" (or GvarFragment, whichever backend job runs first)"),
                     json!({"case": cj, "glyph": nm}),
                 );
                 obs = Obs::MissingJob;
@@ -822,8 +909,8 @@ fn run_case(c: &Case) -> Vec<serde_json::Value> {
     if comparable {
         let nontrivial = c.glyphs.len() > 1;
         let sig = format!("{:?}", cj.to_string());
-        let mut v = json!({"type":"case","id":c.id,"kind":c.kind,"coq":coq_case(c, &obs, false),"nontrivial":nontrivial,"sig":sig});
-        v["show"] = json!(format!("({} {} {} {})", "ufo_build", coq_flags(&c.fl), coq_names(c.declared.as_deref().unwrap_or(&[])), coq_list(&c.glyphs, |g| format!("({})", coq_glyph(g)))));
+        let mut v = json!({"type":"case","id":c.id,"kind":c.kind,"coq":coq_case(c, &obs, c.glyphs_fmt),"nontrivial":nontrivial,"sig":sig});
+        v["show"] = json!(format!("({} {} {} {})", if c.glyphs_fmt { "glyphs_build" } else { "ufo_build" }, coq_flags(&c.fl), coq_names(c.declared.as_deref().unwrap_or(&[])), coq_list(&c.glyphs, |g| format!("({})", coq_glyph(g)))));
         v["input"] = cj;
         v["impl"] = match &obs {
             Obs::Font(o) => json!({"order": o.order, "post": o.post, "cmap": o.cmap, "components": o.comps}),
@@ -835,6 +922,51 @@ fn run_case(c: &Case) -> Vec<serde_json::Value> {
     out.lines
 }
 
+/// Hand-written boundary sources that run first on every seed.
+fn fixed_cases() -> Vec<Case> {
+    let g = |name: &str, export: bool, cps: &[u32], contours: bool, comps: &[&str], advance: u32| G {
+        name: name.into(),
+        export,
+        cps: cps.to_vec(),
+        contours,
+        comps: comps.iter().map(|s| s.to_string()).collect(),
+        advance,
+    };
+    let base = |id: usize, declared: Option<Vec<&str>>, glyphs: Vec<G>, prefer_simple: bool| Case {
+        id,
+        kind: "fixed",
+        declared: declared.map(|d| d.iter().map(|s| s.to_string()).collect()),
+        glyphs,
+        fl: Fl { prefer_simple, flatten: false, decompose: false, production_names: true },
+        rename: None,
+        use_prod_key: None,
+        designspace: false,
+        glyphs_fmt: false,
+        default_last: false,
+        decoy_skip: vec![],
+        extra_in_other_master: None,
+        kerning: vec![],
+    };
+    vec![
+        // .notdef listed in public.skipExportGlyphs, default flags
+        base(0, None, vec![g(NOTDEF, false, &[], true, &[], 100), g("a", true, &[0x61], true, &[], 110)], true),
+        // hoisted contours of "a" would be called "a.0", the name of a non-export glyph
+        base(1, None, vec![g("a", true, &[0x61], true, &["b"], 100), g("b", true, &[], true, &[], 110), g("a.0", false, &[], true, &[], 120)], false),
+        // the same without the collision: derived glyph a.1 because a.0 is an exported glyph
+        base(2, Some(vec!["a.0", "a"]), vec![g("a", true, &[0x61], true, &["b"], 100), g("b", true, &[], true, &[], 110), g("a.0", true, &[], true, &[], 120)], false),
+        // no .notdef in the source, one glyph
+        base(3, Some(vec![]), vec![g("a", true, &[0x61, 0x41], true, &[], 100)], true),
+        // .notdef declared last
+        base(4, Some(vec!["b", "a", NOTDEF]), vec![g("a", true, &[0x61], true, &[], 100), g(NOTDEF, true, &[], true, &[], 110), g("b", true, &[0x62], true, &[], 120)], true),
+        // one code point on two exported glyphs
+        base(5, None, vec![g("a", true, &[0x41], true, &[], 100), g("b", true, &[0x41], true, &[], 110)], true),
+        // the same code point on an exported and a non-export glyph: harmless
+        base(6, None, vec![g("a", true, &[0x41], true, &[], 100), g("b", false, &[0x41], true, &[], 110)], true),
+        // nested non-export components
+        base(7, None, vec![g("e", true, &[0x65], false, &["n1", "x"], 100), g("n1", false, &[], false, &["n2"], 110), g("n2", false, &[], false, &["x", "x"], 120), g("x", true, &[], true, &[], 130)], true),
+    ]
+}
+
 fn main() {
     let args: Vec<String> = std::env::args().collect();
     let args = &args[1..];
@@ -843,7 +975,10 @@ fn main() {
     let threads = arg_val(args, "--threads", 8) as usize;
     quiet_panics();
     let mut rng = Rng::new(seed);
-    let cases: Vec<Case> = (0..n).map(|i| gen_case(&mut rng, i)).collect();
+    let mut cases: Vec<Case> = fixed_cases();
+    let k = cases.len();
+    cases.extend((k..n.max(k)).map(|i| gen_case(&mut rng, i)));
+    let n = cases.len();
     // compile in parallel, emit in case order (deterministic output)
     let results: Vec<Vec<serde_json::Value>> = {
         let chunks: Vec<Vec<&Case>> = (0..threads).map(|t| cases.iter().skip(t).step_by(threads).collect()).collect();
